@@ -144,7 +144,9 @@ def check(ctx):
             ctx.fail('py-time', {'family': name, 'parser': 'pybrace', 'example': f(24)[:60]},
                      'pybrace.FormatString time is not linear on this family: ' + desc)
     return common.finish(
-        ctx, 'proof', build, aud, TRUSTED, ASSUME,
+        ctx, 'other', build, aud, TRUSTED, ASSUME,
+        explanation='Partial: perl-brace fully proved; python-brace inclusion theorems proved outside the recorded findings, the flat-fields formatting theorem only for the '
+                    'per-spec type sets; time of the real regex is measured on doubling families, not proved.',
         checker_cmd='tools/build.sh (coq_makefile + make: coqc on Props/C13.v) then coqc Audit_C13.v (Print Assumptions)',
         rule='python-brace: all strings of length <= %d over %r, every "{:spec}" with spec of length <= %d over a 20-character spec alphabet, random '
              'concatenations/mutations of field fragments, boundary numbers; on each: extracted model vs pybrace.FormatString (error class and argument, '
